@@ -331,30 +331,60 @@ def shard(lines, k):
     return [lines[i:i + size] for i in range(0, len(lines), size)]
 
 
-def run_lines(cmd, lines, env=None, timeout=1200, shards=NCPU):
+def run_lines(cmd, lines, env=None, timeout=1200, shards=NCPU, stall=90, _hangs=None):
     """Feed the case lines to `cmd` (sharded over processes); returns the output lines.
     A process that dies mid-way yields 'CRASH' for the case it died on and is restarted on
-    the remaining cases."""
+    the remaining cases.  A process that prints nothing for `stall` seconds is hung on its current case
+    (a deadlock in the code under test must not hang the check): it is killed, the case yields 'CRASH rc=hang'."""
     if not lines:
         return []
+    import select
+    import threading
+    if _hangs is None:
+        _hangs = [0]
+    if _hangs[0] >= 6:
+        # the code under test hangs again and again: the verdict is settled, do not spend 20 s on every further case
+        return ["CRASH rc=not-run-after-%d-hangs" % _hangs[0]] * len(lines)
     parts = shard(lines, shards)
     procs = []
     for part in parts:
-        p = subprocess.Popen(cmd, env=env or ENV, stdin=subprocess.PIPE, stdout=subprocess.PIPE,
-                             stderr=subprocess.DEVNULL, text=True)
+        p = subprocess.Popen(cmd, env=env or ENV, stdin=subprocess.PIPE, stdout=subprocess.PIPE, stderr=subprocess.DEVNULL)
         procs.append((p, part))
-    # write all inputs (threads not needed: outputs are small relative to pipe buffers only if
-    # we drain; use communicate per process sequentially after spawning all)
-    import threading
     results = [None] * len(procs)
 
     def work(i, p, part):
+        def feed():
+            try:
+                p.stdin.write(("\n".join(part) + "\n").encode())
+                p.stdin.close()
+            except (BrokenPipeError, OSError, ValueError):
+                pass
+        threading.Thread(target=feed, daemon=True).start()
+        fd = p.stdout.fileno()
+        buf, last, t_end, hung = b"", time.time(), time.time() + timeout, False
+        while True:
+            r, _, _ = select.select([fd], [], [], 1.0)
+            if r:
+                d = os.read(fd, 1 << 16)
+                if not d:
+                    break
+                buf += d
+                last = time.time()
+                if buf.count(b"\n") >= len(part):
+                    break
+            elif time.time() - last > stall or time.time() > t_end:
+                hung = True
+                break
+        if hung or p.poll() is None:
+            try:
+                p.kill()
+            except OSError:
+                pass
         try:
-            out, _ = p.communicate("\n".join(part) + "\n", timeout=timeout)
+            p.wait(timeout=10)
         except subprocess.TimeoutExpired:
-            p.kill()
-            out, _ = p.communicate()
-        results[i] = (out.splitlines(), p.returncode)
+            pass
+        results[i] = (buf.decode("utf-8", "replace").splitlines(), "hang" if hung else p.returncode)
 
     ths = [threading.Thread(target=work, args=(i, p, part)) for i, (p, part) in enumerate(procs)]
     for t in ths:
@@ -368,9 +398,12 @@ def run_lines(cmd, lines, env=None, timeout=1200, shards=NCPU):
             done = lines_out
             k = len(done)
             done.append("CRASH rc=%s" % rc)
+            if rc == "hang":
+                _hangs[0] += 1
             rest = part[k + 1:]
             if rest:
-                done += run_lines(cmd, rest, env=env, timeout=timeout, shards=1)
+                # after a hang the remaining cases get a shorter leash: a change that deadlocks one case usually deadlocks many
+                done += run_lines(cmd, rest, env=env, timeout=timeout, shards=1, stall=min(stall, 20) if rc == "hang" else stall, _hangs=_hangs)
             lines_out = done
         outs += lines_out[:len(part)]
     return outs
